@@ -134,14 +134,16 @@ def jobs(tier):
     for kinds in (("v2c",), ("sha1priv",), ("md5",), ("v2c", "sha1priv"), ("md5", "sha1priv")):
         for names in combos + triples:
             if quick:
-                if kinds == ("md5",) and names not in (("get", "walkA"), ("set", "set")):
+                if kinds == ("md5",) and names not in (("get", "walkA"), ("set", "set"), ("walkA", "bulkwalkC")):
                     continue
                 if len(kinds) == 2 and names not in (("walkA", "bulkwalkC"), ("set", "multiget"), ("get", "walkA", "set")):
                     continue
                 if kinds == ("sha1priv",) and len(names) == 3 and names != ("get", "walkA", "set"):
                     continue
             for frozen in (True, False):
-                if quick and not frozen and (kinds != ("v2c",) or len(names) == 3):
+                if quick and not frozen and len(names) == 3:
+                    continue
+                if quick and not frozen and kinds not in (("v2c",), ("md5",)) and names not in (("get", "walkA"), ("set", "multiget")):
                     continue
                 name = "%s-%s-%s" % ("+".join(kinds), "+".join(names), "frozen-clock" if frozen else "counter-ids")
                 heavy = len(names) == 3 and any(k != "v2c" for k in kinds)
